@@ -314,23 +314,25 @@ def _crn_cache_path(case):
 
 
 def _crn_result(case, consume):
-    """impl() and oracle() of one case run in the same worker one after the other: the second caller re-uses the first
-    caller's execution (both only read what the implementation did); a lone caller executes itself."""
+    """impl() always executes and leaves its result for the oracle of the same case (run right afterwards in the same
+    worker pool); the oracle re-uses it when it is recent (both only read what the implementation did) and executes
+    itself otherwise."""
+    import time
     p = _crn_cache_path(case)
-    if os.path.exists(p):
-        with open(p) as f:
-            res = json.load(f)
-        if consume:
+    if consume:
+        if os.path.exists(p) and time.time() - os.path.getmtime(p) < 900:
+            with open(p) as f:
+                res = json.load(f)
             try:
                 os.remove(p)
             except OSError:
                 pass
-        return res
+            return res
+        return _crn_exec(case)
     res = _crn_exec(case)
-    if not consume:
-        with open(p + ".tmp", "w") as f:
-            json.dump(res, f)
-        os.replace(p + ".tmp", p)
+    with open(p + ".tmp", "w") as f:
+        json.dump(res, f)
+    os.replace(p + ".tmp", p)
     return res
 
 
@@ -877,10 +879,20 @@ def gen_cases(tier, rng):
     for k in range(25 if q else 250):
         cases.append(_gen_cluster(rng, gs, rng.randrange(2, 10 if q else 24), allsizes=(k % 3 == 0)))
     # -- worker counts
-    cases += _runtime_cases(tier, rng, us, ec)
+    slow = _runtime_cases(tier, rng, us, ec)
     # -- network expansion: serial vs parallel on full event records, rule lists with unusable rules first
-    crn = [_gen_crn(rng, f) for f in CRN_FIXED] + [_gen_crn(rng) for _ in range(8 if q else 80)]
-    return crn + cases
+    slow += [_gen_crn(rng, f) for f in CRN_FIXED] + [_gen_crn(rng) for _ in range(8 if q else 80)]
+    # the slow cases (seconds each, they start process pools) are spread evenly through the list: the check's worker pool
+    # hands out consecutive chunks, a block of them would be run by one worker one after the other
+    out = []
+    stride = max(1, len(cases) // (len(slow) + 1))
+    k = 0
+    for i, c in enumerate(cases):
+        if i % stride == 0 and k < len(slow):
+            out.append(slow[k])
+            k += 1
+        out.append(c)
+    return out + slow[k:]
 
 
 # ------------------------------------------------------------------ evidence helpers
